@@ -38,6 +38,8 @@ type conf struct {
 	graceMs int  // how = "notify-close": the close follows the notification after this long (0: 1 ms)
 	partial int  // the server writes the first `partial` bytes of one more frame (a push) before it closes, and the client reads them
 	objMax  int32 // per-object limit of calls in flight (0: default 100000)
+	held    int  // how = "notify-busy": calls in flight when the close notification arrives; the server answers each respMs after it
+	// arrived and closes graceMs after the last answer (what a gracefully stopping tars server does)
 	idleMs  int  // the server closes this long after its last response (0: 10 ms); 1000, 2000 coincide with the client sender's 1 s poll
 }
 
@@ -82,6 +84,10 @@ func scenario(c conf) *vm.Scenario {
 		}
 		for i := 0; i < c.closeAt; i++ {
 			call(fmt.Sprintf("pre%d", i), i)
+		}
+		for h := 0; h < c.held; h++ {
+			h := h
+			vm.GoNamed("heldcaller", func() { call(fmt.Sprintf("held%d", h), 90+h) })
 		}
 		tClose := vm.Recv(closed)
 		if c.racer {
@@ -190,6 +196,10 @@ func acceptor(c conf, ln vnet.Listener, closed chan int64) {
 					}
 					vm.Log("server %s got id=%d payload=%x", conn.ID(), q.ID, q.Buffer)
 					rsp := (&tnet.Response{Version: q.Version, ID: q.ID, Buffer: q.Buffer, Status: map[string]string{}}).Encode()
+					if c.how == "notify-busy" && served == c.closeAt {
+						conn.Write((&tnet.Response{Version: 1, ID: 0, ResultDesc: "_reconnect_", Status: map[string]string{}}).Encode())
+						vm.Log("server %s sent the close notification with id=%d in flight", conn.ID(), q.ID)
+					}
 					if c.respMs > 0 && served >= c.closeAt {
 						// (the calls before the close are answered at once, so that the close finds the client idle)
 						vm.GoNamed("srvreply", func() {
@@ -200,7 +210,14 @@ func acceptor(c conf, ln vnet.Listener, closed chan int64) {
 						conn.Write(rsp)
 					}
 					served++
-					if served == c.closeAt {
+					if c.how == "notify-busy" && served == c.closeAt+c.held {
+						vm.Sleep(int64(c.respMs+c.graceMs) * 1e6)
+						conn.Close()
+						vm.Log("server closed %s", conn.ID())
+						vm.Send(closed, vm.Now())
+						return
+					}
+					if served == c.closeAt && c.how != "notify-busy" {
 						// let the client take the reply first: the close comes when the client is idle
 						if c.idleMs > 0 {
 							vm.Sleep(int64(c.idleMs)*1e6 - vm.Now()%1e9) // at this offset into the second (the connection was made at t=0)
@@ -286,6 +303,10 @@ func check(c conf, r *vm.Result) string {
 		if strings.HasPrefix(o, "call post") && !strings.Contains(o, " ok ") {
 			msgs = append(msgs, "call-after-server-close-did-not-succeed:"+c.how+"\n"+o)
 		}
+		if strings.HasPrefix(o, "call held") && !strings.Contains(o, " ok ") {
+			// the server answered it, on the connection it arrived on, before closing that connection
+			msgs = append(msgs, "call-in-flight-at-close-notification-failed-although-answered\n"+o)
+		}
 		if strings.HasPrefix(o, "call pre") && !strings.Contains(o, " ok ") {
 			msgs = append(msgs, "call-before-close-failed\n"+o)
 		}
@@ -345,6 +366,11 @@ func main() {
 			if c.racer {
 				cc.name = fmt.Sprintf("call racing with the close, then closeAt=%d how=%s delta=%dms after=%d bound=%d prune=%v policy=%s stall-deviations within 10ms of the close", c.closeAt, c.how, c.deltaMs, c.after, bound, prune, pn)
 				cases = append(cases, e1.Case{Sc: scenario(cc), Opt: vm.Options{Bound: bound, StrictDev: true, Prune: prune, Policy: pol, Stall: true, DevFrom: 1, DevTo: 21e6}, Budget: budget, MinOutcomes: 1})
+				continue
+			}
+			if c.held > 0 {
+				cc.name = fmt.Sprintf("notification with %d calls in flight, answered %dms later, close %dms after that; closeAt=%d delta=%dms after=%d bound=%d prune=%v policy=%s", c.held, c.respMs, c.graceMs, c.closeAt, c.deltaMs, c.after, bound, prune, pn)
+				cases = append(cases, e1.Case{Sc: scenario(cc), Opt: vm.Options{Bound: bound, StrictDev: true, Prune: prune, Policy: pol}, Budget: budget, MinOutcomes: 1})
 				continue
 			}
 			if c.respMs > 0 {
@@ -414,6 +440,13 @@ func main() {
 		}
 		add(conf{closeAt: 1, how: how, deltaMs: 350, after: 1, par: 2, respMs: 300, graceMs: 100}, 1, false)
 	}
+	// a close notification that arrives while calls are in flight; the server answers them and closes afterwards
+	for _, held := range []int{1, 2} {
+		for _, resp := range []int{100, 700} {
+			add(conf{closeAt: 1, how: "notify-busy", deltaMs: 1, after: 1, par: 1, held: held, respMs: resp, graceMs: 50}, 1, false)
+		}
+	}
+	add(conf{closeAt: 2, how: "notify-busy", deltaMs: 600, after: 2, par: 1, held: 3, respMs: 300, graceMs: 300}, 0, false)
 	// a call issued at the very instant of the close (it may be lost) and judged calls 1 ms later, with "stall"
 	// deviations: a goroutine of the old connection may be held back while the clock moves on
 	for _, how := range []string{"reset", "close"} {
